@@ -15,6 +15,11 @@ real matcher factory, stepped in lock-step with a reference registry.  Lookups L
 are operations as well: they are executed on the live registry after every operation of every
 history (registrations and lookups interleaved) and each is checked to be a self-loop of the
 canonical state; canonical-state deduplication, one sweep per BFS level.
+
+Part (c), engine E4: custom types {tight / wide / no regex} x {total / partly raising / raising on
+pattern source texts} converters inside ordered pairs and triples of registrations that overlap
+only inside the typed field ("converter raises" as an outcome of the AMBIGUITY test at
+registration, not only of lookup), then dispatch of the step texts.
 """
 import itertools
 from vlib.core import digest
@@ -40,7 +45,16 @@ RULE = ("(a) patterns = token sequences of length 1-3 (thorough: also length 4 o
         "matcher): that determines all futures because registration and lookup read nothing else; a lookup must not "
         "write any of it, therefore L-edges are not expanded but each one is CHECKED to be a self-loop on the real "
         "objects (identity snapshot of every per-type list - keys, length, the matcher objects in order - and of the "
-        "factory before == after every single find_match / find_step_definition).")
+        "factory before == after every single find_match / find_step_definition). "
+        "(c) the converter outcome inside the registration alphabet: custom type T = regex {red|green|blue, \\D+, "
+        "\\S+, no pattern attribute} x converter {total, raises on 'blue', raises on everything but a colour name "
+        "(= on every pattern source text)} x matcher {parse, cfparse}; every ordered sequence of 1-3 (thorough: 4) "
+        "@given registrations over the pool {a {c:T}, a {n:d}, a lvl {n:d}, a red, a blue, a {x}} (patterns that "
+        "overlap only inside the field), distinct functions and, for repeated patterns, also the same function; "
+        "reference: a definition matches a text iff the field languages accept a cut of it AND every converter "
+        "succeeds; AmbiguousStep iff an existing definition really matches the new pattern text; then 11 step texts "
+        "x {given, when} are looked up and run. Non-trivial there = a registration that is unambiguous only because "
+        "a converter raises, or a lookup with a raising converter in front of the expected definition.")
 ASSUMPTIONS = [
     "field values, literals and prefixes/suffixes are ASCII without 0x/0b/0o prefixes; the languages of {:d} and "
     "{:f} include an optional sign out of '+', '-', ' ' (parse's format-spec sign set; a blank sign only arises "
@@ -55,6 +69,10 @@ ASSUMPTIONS = [
     "reference follows the implementation there",
     "a converter that raises: accepted outcomes are 'no match' or a match object whose run() raises without "
     "calling the step function (the statement does not say which)",
+    "lookup when a candidate in front of the first really matching definition accepts the text with its regex but "
+    "its converter raises: the statement does not say whether that candidate surfaces as a match-with-error or the "
+    "search goes on; accepted = the match-with-error (run() raises, no function called) or the really matching "
+    "definition with the right arguments (part c)",
     "cucumber expressions (behave.cucumber_expression) are not one of the four matcher kinds and are not covered",
 ]
 
@@ -285,7 +303,11 @@ def f3(context, *args, **kwargs):
     CALLS.append(("f3", args, kwargs))
 
 
-FUNCS = (f1, f2, f3)
+def f4(context, *args, **kwargs):
+    CALLS.append(("f4", args, kwargs))
+
+
+FUNCS = (f1, f2, f3, f4)
 
 
 class _Null(object):
@@ -862,6 +884,201 @@ def history_case(case):
     return results
 
 
+# =============================================================================
+# part (c): "converter raises" inside the REGISTRATION alphabet (ambiguity detection), then dispatch
+# =============================================================================
+# custom type T = regex x converter.  Reference semantics of a definition: it matches a text iff the text can be cut
+# into its elements (the field's regular language accepts the field text) AND every converter succeeds.
+T_REGEX = {                       # name -> (pattern attribute given to parse or None, hand-written recogniser)
+    "tight": (r"red|green|blue", acc_color),
+    "nodigit": (r"\D+", lambda s: len(s) > 0 and not any(c in DIG for c in s)),
+    "nospace": (r"\S+", lambda s: len(s) > 0 and not any(c in " \t\n\r\f\v" for c in s)),
+    "none": (None, lambda s: len(s) > 0),
+}
+T_CONV = {                        # name -> reference converter
+    "total": lambda s: ("c", s),
+    "raises-on-blue": lambda s: RAISE if s == "blue" else ("c", s),
+    "names-only": lambda s: ("c", s) if s in COLORS else RAISE,      # raises on every pattern source text
+}
+for _rk in T_REGEX:
+    for _ck in T_CONV:
+        TOKENS["T/%s/%s" % (_rk, _ck)] = ("p", "{%s:T}", "c", True, False, T_REGEX[_rk][1], T_CONV[_ck], ())
+
+CPOOL = ("a {c:T}", "a {n:d}", "a lvl {n:d}", "a red", "a blue", "a {x}")
+
+
+def cpool_elements(i, rk, ck):
+    return ((("lit", "a "), ("fld", "T/%s/%s" % (rk, ck), "c")),
+            (("lit", "a "), ("fld", "d", "n")),
+            (("lit", "a lvl "), ("fld", "d", "n")),
+            (("lit", "a red"),),
+            (("lit", "a blue"),),
+            (("lit", "a "), ("fld", "x", "x")))[i]
+
+
+CDISPATCH = ("a red", "a blue", "a green", "a 7", "a lvl 7", "a lvl x", "a foo", "a {n:d}", "a lvl {n:d}", "a {c:T}",
+             "c d")
+
+
+def make_real_type(rk, ck):
+    def convert_T(text):
+        if ck == "raises-on-blue" and text == "blue":
+            raise ValueError("no blue")
+        if ck == "names-only" and text not in COLORS:
+            raise KeyError(text)
+        return ("c", text)
+    if T_REGEX[rk][0] is not None:
+        convert_T.pattern = T_REGEX[rk][0]
+    return convert_T
+
+
+def ref_match_class(elements, text):
+    """-> ('no', None) | ('raises', None) | ('matches', kwargs)   (the cut is unique for the pool's patterns)"""
+    ds = decompose(elements, text)
+    if not ds:
+        return "no", None
+    good = [d for d in ds if not has_raise(d)]
+    if not good:
+        return "raises", None
+    return "matches", tuple(sorted((nm, typed(val)) for (_, _, _, val, nm) in good[0]))
+
+
+def convreg_case(case):
+    """case = (matcher kind, regex kind, converter kind, ((pool index, function index), ...)): the registrations in
+    order for step type 'given', each compared with the reference; then every dispatch text is looked up and run."""
+    if not _B:
+        init_worker()
+    kind, rk, ck, regs = case
+    reset_state()
+    _B["behave"].register_type(T=make_real_type(rk, ck))
+    _B["behave"].use_step_matcher(kind)
+    reg = _B["StepRegistry"]()
+    ref = []                    # [(pool index, function index)]
+    v, dg, outs = [], [], []
+    crux = False
+    for (pi, fi) in regs:
+        pattern = CPOOL[pi]
+        where = "matcher %s, type T = regex %s x converter %s, registered %r, then @given(%r)(f%d)" % (
+            kind, rk, ck, [(CPOOL[a], "f%d" % (b + 1)) for (a, b) in ref], pattern, fi + 1)
+        classes = [(ref_match_class(cpool_elements(epi, rk, ck), pattern)[0], epi, efi) for (epi, efi) in ref]
+        if any(epi == pi and efi == fi for (_, epi, efi) in classes):
+            exp = "ignored"
+        elif any(c == "matches" for (c, _, _) in classes):
+            exp = "ambiguous"
+        elif any(epi == pi for (_, epi, _) in classes):
+            exp = "silent"      # same pattern string, other function, not a real match: statement silent
+        else:
+            exp = "added"
+        why = "converter-raises" if any(c == "raises" for (c, _, _) in classes) else "regex-rejects"
+        if exp == "added" and why == "converter-raises":
+            crux = True
+        before = len(reg.steps["given"])
+        try:
+            reg.make_decorator("given")(pattern)(FUNCS[fi])
+            exc = None
+        except Exception as e:      # noqa
+            exc = type(e).__name__
+        grew = len(reg.steps["given"]) - before
+        if exc not in (None, "AmbiguousStep"):
+            v.append(({"subcheck": "convreg.register", "clause": "unexpected-exception", "exc": exc},
+                      "%s raised %s" % (where, exc)))
+        elif exp == "ignored" and (exc or grew):
+            v.append(({"subcheck": "convreg.register", "clause": "identical-not-ignored"},
+                      "%s: same function and pattern already registered, got %r (added %d)" % (where, exc, grew)))
+        elif exp == "ambiguous" and exc != "AmbiguousStep":
+            v.append(({"subcheck": "convreg.register", "clause": "ambiguous-not-rejected", "regex": rk, "converter": ck},
+                      "%s: an existing definition really matches the new pattern text (regex accepts it, all "
+                      "converters succeed); expected AmbiguousStep, got %r (added %d)" % (where, exc, grew)))
+        elif exp == "added" and (exc is not None or grew != 1):
+            v.append(({"subcheck": "convreg.register", "clause": "rejected-although-no-existing-definition-matches",
+                       "existing": why},
+                      "%s: no existing definition matches the new pattern text (%s), expected it to be added, got %r "
+                      "(added %d); existing definitions vs. the text: %r"
+                      % (where, "the regex of one accepts it but its converter raises on it" if why == "converter-raises"
+                         else "no regex accepts it", exc, grew, [(CPOOL[a], c) for (c, a, _) in classes])))
+        if exc is not None and grew:
+            v.append(({"subcheck": "convreg.register", "clause": "rejected-but-registry-changed"},
+                      "%s raised %s but %d definitions were added" % (where, exc, grew)))
+        if grew > 0:
+            ref.append((pi, fi))            # the reference follows the implementation (silent case / after a report)
+        outs.append((exp, why if exp == "added" else ""))
+        dg.append((pattern, exc, grew))
+    reset_state()                           # module boundary: matching must not depend on the factory state
+    _B["behave"].register_type(T=make_real_type(rk, ck))
+    shadow = False
+    for t in ("given", "when"):
+        for text in CDISPATCH:
+            where = "matcher %s, T = regex %s x converter %s, @given definitions %r, lookup (%s, %r)" % (
+                kind, rk, ck, [(CPOOL[a], "f%d" % (b + 1)) for (a, b) in ref], t, text)
+            cands = ref if t == "given" else []
+            classes = [(ref_match_class(cpool_elements(epi, rk, ck), text), efi) for (epi, efi) in cands]
+            winner = next(((kw, efi) for ((c, kw), efi) in classes if c == "matches"), None)
+            # statement silent: a candidate in front of the winner whose regex accepts the text but whose converter
+            # raises may surface as a match-with-error (run() raises, no function called) instead of the winner
+            nfront = len(classes) if winner is None else [c == "matches" for ((c, _), _) in classes].index(True)
+            may_error = any(c == "raises" for ((c, _), _) in classes[:nfront])
+            m = reg.find_match(lookup_step(t, text))
+            if m is None:
+                got = None
+            else:
+                ran = run_match(m)
+                if type(m).__name__ == "MatchWithError":
+                    got = ("match-with-error", ran[0], len(ran[2]))
+                elif ran[0] != "called" or len(ran[2]) != 1:
+                    got = ("bad-run", ran[0], ran[1], len(ran[2]))
+                else:
+                    c0 = ran[2][0]
+                    got = (c0[0], c0[1], tuple(sorted((k, typed(x)) for k, x in c0[2].items())))
+            dg.append((t, text, got))
+            if got is not None and got[0] == "match-with-error":
+                shadow = shadow or may_error
+                if got[1:] != ("raised", 0):
+                    v.append(({"subcheck": "convreg.dispatch", "clause": "called-after-converter-error"},
+                              "%s: match with a conversion error, but run() -> %r" % (where, got)))
+                elif not may_error:
+                    v.append(({"subcheck": "convreg.dispatch", "clause": "spurious-converter-error"},
+                              "%s: reported a conversion error, but no candidate in front of the expected definition "
+                              "has a raising converter for this text (%r)" % (where, [c for (c, _) in classes])))
+            elif winner is None:
+                if got is not None:
+                    v.append(({"subcheck": "convreg.dispatch", "clause": "bound-although-nothing-matches",
+                               "lookup": "registered-type" if t == "given" else "other-type"},
+                              "%s -> %r, but no definition of that type matches" % (where, got)))
+                elif may_error:
+                    shadow = True
+            elif got is None:
+                v.append(({"subcheck": "convreg.dispatch", "clause": "not-bound"},
+                          "%s -> nothing, expected f%d%r" % (where, winner[1] + 1, winner[0])))
+            elif got[0] == "bad-run":
+                v.append(({"subcheck": "convreg.dispatch", "clause": "function-not-called-once"},
+                          "%s -> %r" % (where, got)))
+            elif got[0] != "f%d" % (winner[1] + 1):
+                v.append(({"subcheck": "convreg.dispatch", "clause": "wrong-definition"},
+                          "%s -> %r, expected f%d%r" % (where, got, winner[1] + 1, winner[0])))
+            elif got[1] != () or got[2] != winner[0]:
+                v.append(({"subcheck": "convreg.dispatch", "clause": "wrong-arguments"},
+                          "%s -> %r, expected keyword arguments %r" % (where, got, winner[0])))
+    reset_state()
+    return {"v": v, "dg": dg, "n": len(regs) + 2 * len(CDISPATCH),
+            "nt": case if (crux or shadow) else None,
+            "out": ("convreg", kind, tuple(outs), "error-shadows" if shadow else "")}
+
+
+def convreg_cases(sizes):
+    for n in sizes:
+        for kind in ("parse", "cfparse"):
+            for rk in ("tight", "nodigit", "nospace", "none"):
+                for ck in ("total", "raises-on-blue", "names-only"):
+                    for pats in itertools.product(range(len(CPOOL)), repeat=n):
+                        # functions: f1, f2, f3 in order; a repeated pattern also once with the same function
+                        variants = [tuple(range(n))]
+                        if len(set(pats)) < n:
+                            first = {}
+                            variants.append(tuple(first.setdefault(p, i) for i, p in enumerate(pats)))
+                        for fs in variants:
+                            yield (kind, rk, ck, tuple(zip(pats, fs)))
+
+
 def bfs(ctx, alpha, depth, name, dedup=True):
     """one ctx.sweep per level; returns (hashes of the canonical states up to depth-1, number of expanded states,
     hashes of the states first reached at the last level).  Canonical states are compared through their 64-bit
@@ -923,6 +1140,19 @@ def run(ctx):
     n_match_nt = len(ctx.nt)
     ctx.guard(n_match_nt > 5000, "at least 5000 distinct non-trivial (pattern, text class) pairs (%d)" % n_match_nt)
     ctx.note("matching_executions", int(ctx.evaluations))
+    # ---------------------------------------------------------------- (c) converter outcome at registration
+    ctx.sweep(convreg_case, convreg_cases((1, 2, 3) if ctx.quick else (1, 2, 3, 4)), chunk=16,
+              name="converter x registration: ordered pairs/triples%s, then dispatch" % ("" if ctx.quick else "/4-tuples"))
+    couts = [o for o in ctx.outcomes if isinstance(o, tuple) and o and o[0] == "convreg"]
+    for k in ("parse", "cfparse"):
+        ctx.guard(any(o[1] == k and ("added", "converter-raises") in o[2] for o in couts),
+                  "%s: a registration that is unambiguous only because the existing definition's converter raises "
+                  "on the new pattern text" % k)
+        ctx.guard(any(o[1] == k and any(e == "ambiguous" for (e, _) in o[2]) for o in couts),
+                  "%s: a registration that is ambiguous through a custom-typed field" % k)
+    ctx.guard(any(o[3] == "error-shadows" for o in couts), "lookup where a raising converter is in front exercised")
+    ctx.guard(any(any(e == "silent" for (e, _) in o[2]) for o in couts) and
+              any(any(e == "ignored" for (e, _) in o[2]) for o in couts), "silent and ignored registrations exercised")
     # ---------------------------------------------------------------- (b) histories
     depth = 3 if ctx.quick else 4
     seen, expanded, last = bfs(ctx, "small", depth, "histories[42 ops]")
